@@ -4,6 +4,7 @@ import OmbottModel.Lemmas.RouteUrlTree
 import OmbottModel.Lemmas.RouteUrlParse
 import OmbottModel.Lemmas.RouterBuiltinEnv
 import OmbottModel.Lemmas.RouterBuiltinFloat
+import OmbottModel.Gen.Routerbuiltin
 /-!
 C19 — Building a URL from matched parameters leads back to the same match.
 Property theorems only; helper lemmas live in `Lemmas/RouteUrl*.lean`.
@@ -366,6 +367,13 @@ regular expressions only; `fc` is `float(text)` for numerals of more than 15 sig
 these. -/
 section Builtin
 open Ombott.Builtins
+
+/-- the concrete `float` formatter is the live `_float_out` on the probed values (both notations
+of `repr`, subnormal and largest doubles, 17-digit values) -/
+theorem builtin_float_fmt_agrees :
+    (Gen.rbFloatFmt.all fun p =>
+      floatFmt (.conv ("float:".toList ++ p.1)) == some p.2) = true := by
+  decide +kernel
 
 /-- **`stable_path_wildcard`.**  A `path` wildcard whose look-ahead is the literal run that follows
 it in the rule (`fidArgs g = litRun p'`, what the parser configures) and which is not directly
